@@ -9,7 +9,11 @@ import (
 	"context"
 	"errors"
 	"fmt"
+	"io"
+	"net/http"
+	"net/http/httptest"
 	"slices"
+	"sort"
 	"strings"
 	"testing"
 
@@ -198,6 +202,105 @@ func c05Sessions(faultSide string) vs.Verdict {
 	return f.verdict(fmt.Sprintf("version=%s closer=%s faults=%s call=%v %s handlerRan=%v", version, closer, faultSide, withCall, callRes, st1 >= 0))
 }
 
+// c05StreamableClose: a streamable HTTP session is closed (DELETE or ServerSession.Close) while a
+// POST carrying more calls than the session's incoming queue holds is being handed to it.  Every
+// HTTP exchange must end, Close must return, and nothing may be left running.
+func c05StreamableClose() vs.Verdict {
+	f := &e1Fail{prefix: "c05 streamable-close"}
+	closer := vs.Choose("closer", 2, 0) // 0: DELETE, 1: ServerSession.Close
+	shape := vs.Choose("post-shape", 2, 0)
+	vs.Quiet(true)
+	s := NewServer(&Implementation{Name: "srv", Version: "1"}, &ServerOptions{Logger: quietLogger})
+	ran := 0
+	AddTool(s, &Tool{Name: "t"}, func(ctx context.Context, r *CallToolRequest, in map[string]any) (*CallToolResult, any, error) {
+		ran++
+		return &CallToolResult{}, nil, nil
+	})
+	h := NewStreamableHTTPHandler(func(*http.Request) *Server { return s }, &StreamableHTTPOptions{Logger: quietLogger})
+	do := func(method, sid, body string) *httptest.ResponseRecorder {
+		var rd io.Reader
+		if body != "" {
+			rd = strings.NewReader(body)
+		}
+		r := httptest.NewRequest(method, "http://example.test/mcp", rd)
+		if body != "" {
+			r.Header.Set("Content-Type", "application/json")
+		}
+		r.Header.Set("Accept", "application/json, text/event-stream")
+		if sid != "" {
+			r.Header.Set("Mcp-Session-Id", sid)
+			r.Header.Set("Mcp-Protocol-Version", "2025-03-26")
+		}
+		w := httptest.NewRecorder()
+		h.ServeHTTP(w, r)
+		return w
+	}
+	w := do("POST", "", `{"jsonrpc":"2.0","id":"i","method":"initialize","params":{"protocolVersion":"2025-03-26","capabilities":{},"clientInfo":{"name":"c","version":"1"}}}`)
+	sid := w.Header().Get("Mcp-Session-Id")
+	do("POST", sid, `{"jsonrpc":"2.0","method":"notifications/initialized","params":{}}`)
+	var ss *ServerSession
+	for x := range s.Sessions() {
+		ss = x
+	}
+	if sid == "" || ss == nil {
+		return vs.Verdict{Bad: "no session", Sig: "c05 setup"}
+	}
+	vs.Quiet(false)
+	const calls = 12 // more than the transport's incoming queue holds
+	call := func(id int) string {
+		return fmt.Sprintf(`{"jsonrpc":"2.0","id":%d,"method":"tools/call","params":{"name":"t","arguments":{}}}`, id)
+	}
+	done := make(chan string, calls+2)
+	posts := 1
+	if shape == 0 {
+		// one POST with a batch of 12 calls
+		var parts []string
+		for i := 1; i <= calls; i++ {
+			parts = append(parts, call(i))
+		}
+		vs.Go(func() {
+			w := do("POST", sid, "["+strings.Join(parts, ",")+"]")
+			done <- fmt.Sprintf("post:%d", w.Code)
+		})
+	} else {
+		// 3 concurrent POSTs with a batch of 4 calls each
+		posts = 3
+		for p := 0; p < posts; p++ {
+			var parts []string
+			for i := 1; i <= 4; i++ {
+				parts = append(parts, call(10*p+i))
+			}
+			vs.Go(func() {
+				w := do("POST", sid, "["+strings.Join(parts, ",")+"]")
+				done <- fmt.Sprintf("post:%d", w.Code)
+			})
+		}
+	}
+	vs.Go(func() {
+		if closer == 0 {
+			w := do("DELETE", sid, "")
+			done <- fmt.Sprintf("delete:%d", w.Code)
+		} else {
+			ss.Close()
+			done <- "closed"
+		}
+	})
+	var outs []string
+	for i := 0; i < posts+1; i++ {
+		outs = append(outs, <-done) // a POST or a Close that never returns is reported as a deadlock
+	}
+	vs.WaitIdle()
+	n := 0
+	for range s.Sessions() {
+		n++
+	}
+	if n != 0 {
+		f.failf("session-not-forgotten", "after the close the server still lists %d sessions", n)
+	}
+	sort.Strings(outs)
+	return f.verdict(strings.Join(outs, " "))
+}
+
 func TestVerifC05(t *testing.T) {
 	env := verifx.LoadEnv("C05")
 	b := env.Pick(1, 2)
@@ -205,6 +308,7 @@ func TestVerifC05(t *testing.T) {
 		vs.E1(t, "b/sessions", b, vs.Options{}, func() vs.Verdict { return c05Sessions("") }),
 		vs.E1(t, "b/sessions-client-writes-fail", b, vs.Options{}, func() vs.Verdict { return c05Sessions("client") }),
 		vs.E1(t, "b/sessions-server-writes-fail", b, vs.Options{}, func() vs.Verdict { return c05Sessions("server") }),
+		vs.E1(t, "b/streamable-close-vs-posts", env.Pick(1, 2), vs.Options{}, func() vs.Verdict { return c05StreamableClose() }),
 	}
 	env.Run(scs)
 }
